@@ -5,6 +5,8 @@ import QipVerif.Lemmas.DecompDenWitness
 import QipVerif.Lemmas.DecompCond
 import QipVerif.Lemmas.DecompTotal
 import QipVerif.Gen.DecompLabels
+import QipVerif.Gen.DecompAlias
+import QipVerif.Gen.GateCtor
 import QipVerif.Lemmas.DecompReal
 import QipVerif.Lemmas.DecompLabelsTrue
 import QipVerif.Lemmas.DecompBasisPerm
@@ -359,6 +361,47 @@ theorem rules_label_their_angles :
    fun y n body h t i hm ha => rule_labels_complete n body _ (basisLab_ok y n body h).1 t i hm ha⟩
 
 example : gateRule .TOFFOLI = .templ gate_TOFFOLI ∧ (gate_TOFFOLI.zipIdx.filter fun p => angled.contains p.1.name).length = 15 := by
+  decide
+
+/-! ## Alias names (`_gate_H = _gate_SNOT`)
+
+The model alphabet has no `H`; the regenerated table `ruleAlias` (extracted: the rule of the alias, probed with gates
+carrying the alias name, IS the rule of the canonical name, labels included; GATE_CLASS_MAP gives both names one class)
+says which other names have a rule, and `resolveCA` reads them as their canonical name.  `CX`, `iSWAP`, `SWAPALPHA` have
+no rule: they are names without a rule like any other (`expressible_norule`: passed through iff named in the basis). -/
+
+/-- **An alias resolves exactly like its canonical name**, wherever it stands in the circuit and whatever its label
+and classical condition. -/
+theorem alias_resolves_like_canonical (v : FVariant) (b : BasisSpec) (pre post : List CircItem) (s : String) (n : GName)
+    (hl : ruleAlias.lookup s = some n) (ts cs : List Nat) (a : Ang) (l : Lab) (c : Option Cond) :
+    resolveCA tables labels ruleAlias v b (pre ++ .gate ⟨.other s, ts, cs, a⟩ l c :: post) =
+    resolveCA tables labels ruleAlias v b (pre ++ .gate ⟨n, ts, cs, a⟩ l c :: post) := by
+  have hall : ruleAlias.all (fun p => !isOther p.2) = true := by decide
+  rw [← resolveCA_canon tables labels ruleAlias hall v b (pre ++ .gate ⟨.other s, ts, cs, a⟩ l c :: post),
+    ← resolveCA_canon tables labels ruleAlias hall v b (pre ++ .gate ⟨n, ts, cs, a⟩ l c :: post)]
+  congr 1
+  simp only [List.map_append, List.map_cons]
+  congr 2
+  have h1 : canonName ruleAlias (.other s) = n := by simp only [canonName, hl]
+  have h2 := canonName_idem ruleAlias hall (.other s)
+  rw [h1] at h2
+  simp only [CircItem.canon, h1, h2]
+
+/-- non-vacuity, and the alias in a circuit: `[H 1 if c0, CNOT]` resolves like `[SNOT 1 if c0, CNOT]` -/
+example : ruleAlias.lookup "H" = some .SNOT ∧
+    resolveCA tables labels ruleAlias {} (.list [.CSIGN, .RY, .RZ])
+      [.gate ⟨.other "H", [1], [], {}⟩ .none (some ⟨[0], 1⟩), .gate ⟨.CNOT, [0], [1], {}⟩ .none none] =
+    resolveC tables labels {} (.list [.CSIGN, .RY, .RZ])
+      [.gate ⟨.SNOT, [1], [], {}⟩ .none (some ⟨[0], 1⟩), .gate ⟨.CNOT, [0], [1], {}⟩ .none none] := by
+  decide
+
+/-- **… and is the same gate**: in the regenerated constructor table of the gate classes (C09) an alias and its
+canonical name have the same entry (arity, guards, matrix expression) up to the key. -/
+theorem alias_same_class :
+    ruleAlias.all (fun p =>
+      match Gen.G.ctorTable.find? (fun e => e.key == p.1), Gen.G.ctorTable.find? (fun e => e.key == p.2.toString) with
+      | some e1, some e2 => decide ({ e1 with key := "" } = { e2 with key := "" })
+      | _, _ => false) = true := by
   decide
 
 /-! ## The Pauli-marker defect of the original code -/
